@@ -7,8 +7,12 @@ finite grids executed on the real library and compared, case by case, with mc.re
   c-v15    the C decoder pkcs1_decode through its Python binding on raw encoded messages:
            length 11..18 (quick: 11..15) x first two bytes in {00,01,02,FF}^2 x EVERY subset of zero
            positions among the remaining bytes x expected_pt_len 0..len-10 x sentinel length
-           {0,1,len,len+1}; header 00 02 only: length 19,20 (quick: 16,17)
-  c-oaep   the C decoder oaep_decode through its binding: hash length 16/20/32 x EVERY string
+           {0,1,len,len+1}; header 00 02 only: length 19..22 (quick: 16,17).  Thorough also: every
+           sentinel length 0..len+1, every filler value 01..FF, every value 0000..FFFF of the first two
+           octets, every value 00..FF at each single position (short lengths)
+  c-long   encoded messages of every length 12..1040 (quick: five lengths) and around 2^11, 2^12, 2^16
+           bytes: the zero / the 01 separator at every position (2^16: first and last 160 positions)
+  c-oaep   the C decoder oaep_decode through its binding: hash length 16/20/32 (thorough: also 28/48/64) x EVERY string
            over {00,01,02,FF} for the part of DB after lHash (short DBs; all 256 / 65536 values
            for one / two bytes) x Y x lHash mismatch at each byte; long DBs: first non-zero
            byte at each position x {01,02,80,FF} x tails; no separator
@@ -16,9 +20,12 @@ finite grids executed on the real library and compared, case by case, with mc.re
            so that PKCS1_v1_5.decrypt sees exactly that EM; tiny keys k = 11, 12 (every zero
            subset), 16, 34, 35, 48, 64 and the 1024/1025-bit fixtures (first zero at every
            position, nine header variants, three message patterns) x expected_pt_len
-           x sentinel alphabet {b'S', b'', k bytes, k+1 bytes, None, int, bytearray}
+           x sentinel alphabet {b'S', b'', k bytes, k+1 bytes, None, int, bytearray}.
+           Thorough also: k = 13..16 every zero subset; k = 13, 14, 15, 42, 43, 58, 66, 67, 98, 129 (1031/1032
+           bits), 130, 256 (e = 3 and 65537), 300, 384, 512; ciphertext as bytes / bytearray / memoryview
   oaep     end to end: crafted (Y, seed, DB) masked with the reference MGF1 exactly as the
-           encoder would, raw-RSA-encrypted, given to PKCS1_OAEP.decrypt
+           encoder would, raw-RSA-encrypted, given to PKCS1_OAEP.decrypt (thorough: twelve hashes,
+           the smallest modulus for each hash length, 2048-, 2400-, 3072- and 4096-bit moduli)
   rt       every message length 0..max for every (key, hash, MGF, label) / key; encryption
            entropy from a tape (randfunc=); ciphertext must equal the reference encoding raised
            to e; decrypt and the reference decoder must both return the message; max+1 ...
@@ -71,20 +78,28 @@ def _find_key(label, bits, e):
 TINY = (("k11", 88, 65537), ("k12", 96, 65537), ("k16", 128, 3), ("k34", 272, 65537),
         ("k35", 273, 3), ("k48", 384, 65537), ("k64", 512, 3))
 FIXT = (("k128", 1024, 65537), ("k128e3", 1024, 3), ("k129", 1025, 65537))
+# thorough tier only: 13..15-byte moduli (every zero subset end to end); the smallest modulus for each OAEP hash length
+# (k = 2hLen+2: 42, 58, 66, 98, 130) and 2hLen+3 for SHA-1 / SHA-256 (43, 67); 1031/1032-bit moduli (129 bytes, top octet
+# 0x40.. / 0x80..); 2048-bit fixtures; a 2400-bit modulus (300 bytes: message lengths and separator positions beyond 255 end
+# to end); 3072- and 4096-bit moduli
+DEEP_TINY = (("k13", 104, 65537), ("k14", 112, 3), ("k15", 120, 65537), ("k42", 336, 65537), ("k43", 344, 3),
+             ("k58", 464, 65537), ("k66", 528, 3), ("k67", 536, 65537), ("k98", 784, 65537), ("k130", 1040, 3), ("k300", 2400, 65537),
+             ("k384", 3072, 65537), ("k512", 4096, 65537))
+DEEP_FIXT = (("k129b", 1032, 65537), ("k129c", 1031, 3), ("k256", 2048, 65537), ("k256e3", 2048, 3))
 
 
-def build_keys(acc):
+def build_keys(acc, deep=False):
     global _KEYS
     if _KEYS is not None:
         return _KEYS
     from ..keys import rsa_components
     ks = {}
-    for label, bits, e in TINY:
+    for label, bits, e in TINY + (DEEP_TINY if deep else ()):
         kd = _find_key(label, bits, e)
         if kd["n"].bit_length() != bits:
             acc.error("key search for %s gave %d bits" % (label, kd["n"].bit_length()))
         ks[label] = kd
-    for label, bits, e in FIXT:
+    for label, bits, e in FIXT + (DEEP_FIXT if deep else ()):
         c = rsa_components(bits, e)
         ks[label] = {"name": label, "n": c["n"], "e": c["e"], "d": c["d"], "p": c["p"], "q": c["q"],
                      "k": (c["n"].bit_length() + 7) // 8}
@@ -94,6 +109,29 @@ def build_keys(acc):
             acc.error("fixture key %s fails the reference consistency check: %s" % (label, bad))
     _KEYS = ks
     return ks
+
+
+_QINV = {}
+
+
+def ref_rsadp(kd, c):
+    """reference RSADP.  Moduli of 200 bytes and more: RFC 8017 5.1.2 second form (CRT) in plain Python integers, and
+    the result is checked by re-encrypting it (so a slip here is a harness error, never a verdict)."""
+    n, d = kd["n"], kd["d"]
+    if kd["k"] < 200:
+        return R.rsadp(n, d, c)
+    p, q = kd["p"], kd["q"]
+    if not 0 <= c < n:
+        raise ValueError("ciphertext representative out of range")
+    qinv = _QINV.get(n)
+    if qinv is None:
+        qinv = _QINV[n] = nt.inverse(q, p)
+    m1 = pow(c % p, d % (p - 1), p)
+    m2 = pow(c % q, d % (q - 1), q)
+    m = m2 + q * (((m1 - m2) * qinv) % p)
+    if pow(m, kd["e"], n) != c:
+        raise AssertionError("harness: CRT reference private operation is inconsistent")
+    return m
 
 
 def pubpart(kd):
@@ -180,11 +218,27 @@ def install_blinding_seam():
 # ---------------------------------------------------------------------------
 # hashes / OAEP configurations
 # ---------------------------------------------------------------------------
-LIBHASH = {"md5": "MD5", "sha1": "SHA1", "sha256": "SHA256", "sha384": "SHA384", "sha512": "SHA512"}
+LIBHASH = {"md5": "MD5", "sha1": "SHA1", "sha256": "SHA256", "sha384": "SHA384", "sha512": "SHA512",
+           "sha224": "SHA224", "sha3_224": "SHA3_224", "sha3_256": "SHA3_256", "sha3_384": "SHA3_384", "sha3_512": "SHA3_512"}
+# SHA-512/t exists only as a hash OBJECT (SHA512.new(truncate=...)): always handed over as an object
+TRUNCATED = {"sha512_224": "224", "sha512_256": "256"}
+# hashes given the full treatment in the thorough tier in addition to md5/sha1/sha256/sha384 (hLen 28, 32, 48, 64)
+DEEP_HASHES = ("sha224", "sha512", "sha3_256", "sha512_256", "sha3_224", "sha512_224", "sha3_384", "sha3_512")
 
 
-def libhash(hn):
-    return importlib.import_module("Crypto.Hash." + LIBHASH[hn])
+def libhash(hn, asobj=False):
+    """the Crypto.Hash module for hn, or (asobj / truncated SHA-512) a hash object made by it"""
+    if hn in TRUNCATED:
+        return importlib.import_module("Crypto.Hash.SHA512").new(truncate=TRUNCATED[hn])
+    mod = importlib.import_module("Crypto.Hash." + LIBHASH[hn])
+    return mod.new() if asobj else mod
+
+
+def libhash_src(hn, asobj=False):
+    """source text for reproduction scripts"""
+    if hn in TRUNCATED:
+        return "SHA512.new(truncate=%r)" % TRUNCATED[hn]
+    return LIBHASH[hn] + (".new()" if asobj else "")
 
 
 def oaep_cipher(kd, cfg, randfunc=None):
@@ -194,8 +248,7 @@ def oaep_cipher(kd, cfg, randfunc=None):
     hn, mgfh, label, asobj = cfg
     kw = {}
     if hn is not None:
-        mod = libhash(hn)
-        kw["hashAlgo"] = mod.new() if asobj else mod
+        kw["hashAlgo"] = libhash(hn, asobj)
     if mgfh is not None:
         mmod = libhash(mgfh)
         kw["mgfunc"] = lambda x, y: MGF1(x, y, mmod)
@@ -219,6 +272,8 @@ def cfg_str(cfg):
 
 
 def _xor(a, b):
+    if len(a) == len(b):
+        return (int.from_bytes(a, "big") ^ int.from_bytes(b, "big")).to_bytes(len(a), "big")
     return bytes(x ^ y for x, y in zip(a, b))
 
 
@@ -276,7 +331,7 @@ print("expected :", %s)
 '''
 
 
-def v15_case(kd, em, sspec, epl, acc, ct=None, ref_m=False):
+def v15_case(kd, em, sspec, epl, acc, ct=None, ref_m=False, cttype="bytes"):
     """one PKCS1_v1_5.decrypt call on the ciphertext of the crafted EM; returns the outcome class"""
     from Crypto.Cipher import PKCS1_v1_5
     k = kd["k"]
@@ -288,13 +343,14 @@ def v15_case(kd, em, sspec, epl, acc, ct=None, ref_m=False):
     accept = ref_m is not None and (epl == 0 or len(ref_m) == epl)
     cipher = PKCS1_v1_5.new(libkey(kd))
     _DET.reset(ct)
+    arg = ct if cttype == "bytes" else _astype(ct, cttype)
     try:
-        got = cipher.decrypt(ct, sentinel) if epl == 0 else cipher.decrypt(ct, sentinel, epl)
+        got = cipher.decrypt(arg, sentinel) if epl == 0 else cipher.decrypt(arg, sentinel, epl)
     except Exception as ex:  # noqa
         key = "C07/v15/decrypt-raises/%s@%s" % (type(ex).__name__, exc_site(ex))
         acc.violation(key, "PKCS1_v1_5.decrypt raised %s: %s for k=%d EM=%s sentinel=%s expected_pt_len=%d "
                       "(must return the plaintext or the sentinel)" % (type(ex).__name__, ex, k, short(em), sspec, epl),
-                      {"part": "v15", "key": pubpart(kd), "em": em, "sent": sspec, "epl": epl})
+                      {"part": "v15", "key": pubpart(kd), "em": em, "sent": sspec, "epl": epl, "cttype": cttype})
         return "exc"
     if accept:
         if type(got) is bytes and got == ref_m:
@@ -335,7 +391,7 @@ def v15_case(kd, em, sspec, epl, acc, ct=None, ref_m=False):
     srepr = {"none": "None", "int": str(_INT_SENTINEL), "bytearray": "bytearray(b'\\xa5\\x5a\\xa5')"}.get(
         sspec, "bytes.fromhex(%r)" % (bytes(sentinel).hex() if _is_byteslike(sentinel) else ""))
     acc.violation("C07/v15/" + sub, what,
-                  {"part": "v15", "key": pubpart(kd), "em": em, "sent": sspec, "epl": epl},
+                  {"part": "v15", "key": pubpart(kd), "em": em, "sent": sspec, "epl": epl, "cttype": cttype},
                   script=_SCRIPT_V15 % (kd["n"], kd["e"], kd["d"], kd["p"], kd["q"], em.hex(), srepr, epl,
                                         ("bytes.fromhex(%r)" % ref_m.hex()) if accept else "'the sentinel'"))
     return sub
@@ -371,8 +427,8 @@ def epl_set(k, mlen):
     return sorted(x for x in s if x >= 0)
 
 
-def v15_em_all(kd, em, sents, epls, acc, tag):
-    """all (expected length, sentinel) combinations for one EM (ciphertext computed once)"""
+def v15_em_all(kd, em, sents, epls, acc, tag, cttypes=("bytes",)):
+    """all (expected length, sentinel, ciphertext container type) combinations for one EM (ciphertext computed once)"""
     k = kd["k"]
     if R.os2ip(em) >= kd["n"]:
         acc.count("em_not_below_n_skipped")
@@ -380,17 +436,19 @@ def v15_em_all(kd, em, sents, epls, acc, tag):
     ct = R.i2osp(R.rsaep(kd["n"], kd["e"], R.os2ip(em)), k)
     ref_m = R.eme_pkcs1_v15_decode(em)
     # the reference private operation must give back the EM (guards the harness, not the library)
-    if R.i2osp(R.rsadp(kd["n"], kd["d"], R.os2ip(ct)), k) != em:
+    if R.i2osp(ref_rsadp(kd, R.os2ip(ct)), k) != em:
         acc.error("reference RSADP(RSAEP(EM)) != EM for key %s" % kd["name"])
         return
-    for epl in epls:
-        for s in sents:
-            acc.count("evaluations")
-            res = v15_case(kd, em, s, epl, acc, ct=ct, ref_m=ref_m)
-            acc.seen("classes", ("v15", k, tag, em[0] == 0 and em[1] == 2, ref_m is not None,
-                                 "any" if epl == 0 else ("eq" if ref_m is not None and len(ref_m) == epl else
-                                                         ("over" if epl > k - 11 else "ne")), s, res))
-            acc.count("v15_" + ("accept" if res == "plaintext" else "reject" if res == "sentinel" else "other"))
+    for cttype in cttypes:
+        ctag = tag if cttype == "bytes" else tag + "/" + cttype
+        for epl in epls:
+            for s in sents:
+                acc.count("evaluations")
+                res = v15_case(kd, em, s, epl, acc, ct=ct, ref_m=ref_m, cttype=cttype)
+                acc.seen("classes", ("v15", k, ctag, em[0] == 0 and em[1] == 2, ref_m is not None,
+                                     "any" if epl == 0 else ("eq" if ref_m is not None and len(ref_m) == epl else
+                                                             ("over" if epl > k - 11 else "ne")), s, res))
+                acc.count("v15_" + ("accept" if res == "plaintext" else "reject" if res == "sentinel" else "other"))
 
 
 def v15_worker(shards):
@@ -402,13 +460,14 @@ def v15_worker(shards):
         kd = keys[sh[1]]
         k = kd["k"]
         if kind == "pos":            # first zero at every position / header variants
-            _, _, zs, hdrs, pats, sents = sh
+            _, _, zs, hdrs, pats, sents = sh[:6]
+            cttypes = sh[6] if len(sh) > 6 else ("bytes",)
             for z in zs:
                 for hdr in hdrs:
                     for pat in (pats if z < k else pats[:1]):
                         em = v15_pattern(k, hdr, z, pat)
                         mlen = k - 1 - z if z < k else None
-                        v15_em_all(kd, em, sents, epl_set(k, mlen), acc, "pos")
+                        v15_em_all(kd, em, sents, epl_set(k, mlen), acc, "pos", cttypes)
             acc.sample({"part": "v15/first-zero-position", "key": kd["name"], "k": k, "zero_positions": list(zs)[:6],
                         "headers": [list(h) for h in hdrs][:4], "last_EM": em})
         elif kind == "subsets":      # every subset of zero positions among bytes 2..k-1
@@ -433,7 +492,7 @@ _SCRIPT_OAEP = '''# stand-alone reproduction (needs only pycryptodome)
 from Crypto.PublicKey import RSA
 from Crypto.Cipher import PKCS1_OAEP
 from Crypto.Signature.pss import MGF1
-from Crypto.Hash import MD5, SHA1, SHA256, SHA384, SHA512
+from Crypto.Hash import MD5, SHA1, SHA224, SHA256, SHA384, SHA512, SHA3_224, SHA3_256, SHA3_384, SHA3_512
 key = RSA.construct((%d, %d, %d, %d, %d))
 em = bytes.fromhex("%s")                      # the encoded message the private operation will recover
 ct = pow(int.from_bytes(em, "big"), key.e, key.n).to_bytes(key.size_in_bytes(), "big")
@@ -450,9 +509,9 @@ def _oaep_script(kd, cfg, em, exp):
     hn, mgfh, label, asobj = cfg
     args = []
     if hn is not None:
-        args.append("hashAlgo=%s%s" % (LIBHASH[hn], ".new()" if asobj else ""))
+        args.append("hashAlgo=%s" % libhash_src(hn, asobj))
     if mgfh is not None:
-        args.append("mgfunc=lambda x, y: MGF1(x, y, %s)" % LIBHASH[mgfh])
+        args.append("mgfunc=lambda x, y: MGF1(x, y, %s)" % libhash_src(mgfh))
     if label is not None:
         args.append("label=bytes.fromhex(%r)" % bytes(label).hex())
     return _SCRIPT_OAEP % (kd["n"], kd["e"], kd["d"], kd["p"], kd["q"], em.hex(), ", ".join(args), exp)
@@ -592,7 +651,7 @@ def oaep_worker(shards):
         elif kind == "cross":
             # EM produced for configuration A offered to a cipher configured as B (label / MGF / hash differ)
             _, _, _, others = sh
-            for mlen in sorted({0, 1, max(0, r - 1)}):
+            for mlen in sorted(x for x in {0, 1, max(0, r - 1)} if x <= r - 1):
                 rest = bytes(r - 1 - mlen) + b"\x01" + bytes(0xC1 + i % 0x30 for i in range(mlen))
                 em = oaep_em(kd, cfg, 0, (None, 0), rest, acc)
                 if em is None:
@@ -675,13 +734,71 @@ def c_v15_worker(shards):
                     res = c_v15_case(em, slen, epl, acc, ref_m)
                     n += 1
                     acc.seen("classes", ("c-v15", L, b0 == 0 and b1 == 2, ref_m is not None, rel,
-                                         "0" if slen == 0 else "1" if slen == 1 else "L" if slen == L else "L+1", res))
+                                         "0" if slen == 0 else "1" if slen == 1 else "L" if slen == L else "L+1" if slen > L else "mid", res))
                     if res == "plaintext":
                         acc.count("c_v15_accept")
                     elif res == "sentinel":
                         acc.count("c_v15_reject")
         acc.count("evaluations", n)
     acc.sample({"part": "c-v15", "len": L, "header": [b0, b1], "subset_masks": [lo, hi], "last_EM": em})
+    return acc
+
+
+def c_v15x_worker(shards):
+    """thorough tier: value dimensions of the C decoder which the zero-subset grid keeps fixed.
+    'hdr-all'   EVERY one of the 65536 values of the first two octets x zero masks {none, each single position, all}
+                x every legal expected_pt_len
+    'byte-val'  EVERY value 00..FF at EVERY single position 2..len-1 of an otherwise zero-free block with header 00 02,
+                without and with a terminating zero octet in the last position x every legal expected_pt_len"""
+    acc = Acc()
+    n = 0
+    em = b""
+    for sh in shards:
+        kind, L = sh[0], sh[1]
+        nb = L - 2
+        epls = list(range(0, L - 10))
+        if kind == "hdr-all":
+            _, _, lo, hi = sh
+            masks = [0] + [1 << j for j in range(nb)] + [(1 << nb) - 1]
+            for b0 in range(lo, hi):
+                for b1 in range(256):
+                    for mask in masks:
+                        em = bytearray(FILL[i % 8] for i in range(L))
+                        em[0], em[1] = b0, b1
+                        for j in range(nb):
+                            if mask >> j & 1:
+                                em[2 + j] = 0
+                        em = bytes(em)
+                        ref_m = R.eme_pkcs1_v15_decode(em)
+                        for epl in epls:
+                            res = c_v15_case(em, 1, epl, acc, ref_m)
+                            n += 1
+                            acc.seen("classes", ("c-v15-hdr", L, b0 == 0, b1 == 2, ref_m is not None, epl == 0, res))
+                            acc.count("c_v15_accept" if res == "plaintext" else "c_v15_reject" if res == "sentinel" else "c_other")
+            acc.seen("c_v15x", ("hdr-all", L))
+        elif kind == "byte-val":
+            _, _, jlo, jhi = sh
+            for j in range(jlo, jhi):
+                for v in range(256):
+                    for term in (False, True):
+                        if term and j == L - 1:
+                            continue
+                        em = bytearray(FILL[i % 8] for i in range(L))
+                        em[0], em[1] = 0, 2
+                        em[j] = v
+                        if term:
+                            em[L - 1] = 0
+                        em = bytes(em)
+                        ref_m = R.eme_pkcs1_v15_decode(em)
+                        for epl in epls:
+                            res = c_v15_case(em, 1, epl, acc, ref_m)
+                            n += 1
+                            acc.seen("classes", ("c-v15-byteval", L, j < 10, v == 0, term, ref_m is not None,
+                                                 "any" if epl == 0 else "eq" if ref_m is not None and len(ref_m) == epl else "ne", res))
+                            acc.count("c_v15_accept" if res == "plaintext" else "c_v15_reject" if res == "sentinel" else "c_other")
+            acc.seen("c_v15x", ("byte-val", L))
+        acc.sample({"part": "c-v15/" + kind, "len": L, "range": list(sh[2:]), "last_EM": em})
+    acc.count("evaluations", n)
     return acc
 
 
@@ -693,29 +810,35 @@ def c_long_worker(shards):
     n = 0
     for sh in shards:
         if sh[0] == "v15":
-            _, L = sh
+            L = sh[1]
+            win = sh[2] if len(sh) > 2 else None      # None: every position; w: the first and the last w positions
             base = bytearray((FILL[i % 8]) for i in range(L))
             base[0], base[1] = 0, 2
-            for zpos in list(range(2, L)) + [None]:
+            zlist = list(range(2, L)) if win is None else sorted(set(range(2, 2 + win)) | set(range(L - win, L)))
+            big = {65535, 65536} if L >= 65000 else set()
+            for zpos in zlist + [None]:
                 em = bytearray(base)
                 if zpos is not None:
                     em[zpos] = 0
                 em = bytes(em)
                 ref_m = R.eme_pkcs1_v15_decode(em)
                 mlen = len(ref_m) if ref_m is not None else 0
-                for epl in sorted({0, mlen, 255, 256} - ({255, 256} if L < 270 else set())):
+                for epl in sorted(({0, mlen, 255, 256} | big) - ({255, 256} if L < 270 else set())):
                     if epl > L - 11:
                         continue
                     res = c_v15_case(em, 1, epl, acc, ref_m)
                     n += 1
                     acc.seen("classes", ("c-long-v15", L, ref_m is not None, epl == 0, res))
                     acc.count("c_v15_accept" if res == "plaintext" else "c_v15_reject" if res == "sentinel" else "c_other")
-            acc.sample({"part": "c-long/v15", "len": L, "zero_positions": "every position 2..len-1, and none"})
+            acc.sample({"part": "c-long/v15", "len": L, "zero_positions": "every position 2..len-1, and none" if win is None else
+                        "the first and the last %d positions, and none" % win})
         else:
-            _, hn, r = sh
+            hn, r = sh[1], sh[2]
+            win = sh[3] if len(sh) > 3 else None
             hl = R.hash_len(hn)
             lh = hashlib.new(hn, b"").digest()
-            for sep in list(range(r)) + [None]:
+            seps = list(range(r)) if win is None else sorted(set(range(0, win)) | set(range(r - win, r)))
+            for sep in seps + [None]:
                 rest = bytearray(0x41 + (i % 23) for i in range(r))
                 if sep is not None:
                     for i in range(sep):
@@ -727,7 +850,8 @@ def c_long_worker(shards):
                 n += 1
                 acc.seen("classes", ("c-long-oaep", hn, r, tuple(fails), res))
                 acc.count("c_oaep_accept" if res == "plaintext" else "c_oaep_reject")
-            acc.sample({"part": "c-long/oaep", "hash": hn, "db_after_lhash_len": r, "separator_positions": "every position, and none"})
+            acc.sample({"part": "c-long/oaep", "hash": hn, "db_after_lhash_len": r, "separator_positions": "every position, and none"
+                        if win is None else "the first and the last %d positions, and none" % win})
     acc.count("evaluations", n)
     return acc
 
@@ -771,12 +895,16 @@ def c_oaep_worker(shards):
         olab = b"other label"
         other = hashlib.new(hn, olab).digest()
         n = 0
-        if kind == "short":
+        if kind in ("short", "short9"):
             _, _, r, alpha, first_vals, vsel = sh
             variants = oaep_variants(hl, vsel)
-            for first in first_vals:
-                for t in itertools.product(alpha, repeat=r - 1):
-                    rest = bytes((first,) + t)
+            if kind == "short9":                 # first_vals is ONE fixed prefix of two bytes
+                prefixes, nfree = [tuple(first_vals)], r - 2
+            else:
+                prefixes, nfree = [(f,) for f in first_vals], r - 1
+            for prefix in prefixes:
+                for t in itertools.product(alpha, repeat=nfree):
+                    rest = bytes(prefix + t)
                     for (y, di, dx) in variants:
                         l2 = bytearray(lh)
                         if di is not None:
@@ -858,7 +986,7 @@ def rt_oaep_case(kd, cfg, msg, seed, mtype, acc):
                       pre + ", seed %s: ciphertext %s, RFC 8017 7.1.1 gives %s" % (short(seed), short(ct), short(ref_ct)), case)
         return "ct-differs"
     # the reference decoder accepts what the library produced ...
-    back = R.eme_oaep_decode_ex(R.i2osp(R.rsadp(kd["n"], kd["d"], R.os2ip(ct)), k), k, label, hn, mgfh)
+    back = R.eme_oaep_decode_ex(R.i2osp(ref_rsadp(kd, R.os2ip(ct)), k), k, label, hn, mgfh)
     if back != (msg, []):
         acc.error("reference OAEP decoder does not invert the reference encoder (%s)" % pre)
     # ... and so does the library
@@ -917,11 +1045,11 @@ def rt_v15_case(kd, msg, tape_bytes, mtype, acc):
     em = R.eme_pkcs1_v15_encode(msg, k, ps)
     ref_ct = R.i2osp(R.rsaep(kd["n"], kd["e"], R.os2ip(em)), k)
     if ct != ref_ct:
-        em_lib = R.i2osp(R.rsadp(kd["n"], kd["d"], R.os2ip(ct)), k) if len(ct) == k and R.os2ip(ct) < kd["n"] else b""
+        em_lib = R.i2osp(ref_rsadp(kd, R.os2ip(ct)), k) if len(ct) == k and R.os2ip(ct) < kd["n"] else b""
         acc.violation("C07/v15/ciphertext-differs-from-reference",
                       pre + ": library EM %s, RFC 8017 7.2.1 with the same PS octets gives %s" % (short(em_lib), short(em)), case)
         return "ct-differs"
-    if R.eme_pkcs1_v15_decode(R.i2osp(R.rsadp(kd["n"], kd["d"], R.os2ip(ct)), k)) != msg:
+    if R.eme_pkcs1_v15_decode(R.i2osp(ref_rsadp(kd, R.os2ip(ct)), k)) != msg:
         acc.error("reference v1.5 decoder does not invert the reference encoder (%s)" % pre)
     res = "ok"
     for sspec in ("S", "none"):
@@ -1005,7 +1133,7 @@ def ct_case(kd, scheme, cfg, ct, acc):
     elif c >= kd["n"]:
         exp = "ValueError:range"
     else:
-        em = R.i2osp(R.rsadp(kd["n"], kd["d"], c), k)
+        em = R.i2osp(ref_rsadp(kd, c), k)
         if scheme == "v15":
             m = R.eme_pkcs1_v15_decode(em)
             exp = "sentinel" if m is None else "plaintext"
@@ -1098,6 +1226,10 @@ REUSE_SCHEMES = (("v15", None), ("oaep", [None, None, None, False]), ("oaep", ["
                  # the label is handed over in a bytearray which the caller overwrites right after new(): the cipher must go on
                  # using the label it was created with (documented type: bytes/bytearray/memoryview)
                  ("oaep-label-buffer-overwritten", ["sha256", None, b"label-in-a-buffer", False]))
+# thorough tier only: hash OBJECTS that the cipher keeps and calls .new() on at every operation (truncated SHA-512, SHA-3, SHA-512)
+REUSE_DEEP = (("oaep", ["sha512_256", None, b"L", True]), ("oaep", ["sha3_256", "sha512_224", None, True]),
+              ("oaep", ["sha512", "sha224", b"", True]), ("oaep", ["sha224", None, None, False]))
+REUSE_ALL = REUSE_SCHEMES + REUSE_DEEP
 
 
 def _reuse_setup(kd, scheme, cfg):
@@ -1127,7 +1259,9 @@ def _reuse_setup(kd, scheme, cfg):
         def em_of(m):
             return R.eme_oaep_encode(m, k, seeded("c07reuse/%s" % kd["name"], hl), label, hn, mgfh)
         bad = b"\x01" + em_of(b"x")[1:]
-    msgs = [b"", b"A", bytes(range(1, room + 1))[:room], b"\x00" * min(3, room)]
+        if R.os2ip(bad) >= n:     # moduli whose top octet is 01: an encoding for another label instead of Y = 01
+            bad = R.eme_oaep_encode(b"x", k, seeded("c07reuse/%s" % kd["name"], hl), label + b"?", hn, mgfh)
+    msgs = [b"", b"A", bytes((i % 255) + 1 for i in range(room)), b"\x00" * min(3, room)]
     cts = [R.i2osp(R.rsaep(n, e, R.os2ip(em_of(m))), k) for m in msgs]
     cts.append(R.i2osp(R.rsaep(n, e, R.os2ip(bad)), k))          # decoding failure
     cts.append(cts[1][:-1])                                      # wrong length
@@ -1177,7 +1311,7 @@ def reuse_worker(shards):
     acc = Acc()
     for kname, si, depth, first in shards:
         kd = _KEYS[kname]
-        scheme, cfg = REUSE_SCHEMES[si]
+        scheme, cfg = REUSE_ALL[si]
         factory, ops = _reuse_setup(kd, scheme, cfg)
         table = [_reuse_call(factory(), fn, b"reuse%d" % i) for i, (_, fn) in enumerate(ops)]
         for i, m in enumerate(_reuse_setup.expected_plaintexts):
@@ -1190,9 +1324,17 @@ def reuse_worker(shards):
         if kinds != {"ok", "ValueError"} or sum(1 for t in table if t[0] == "ok") < 5:
             acc.error("reuse alphabet of %s/%s: fresh outcomes %s" % (kname, scheme, [t[0] for t in table]))
         nh = 0
-        for d in range(1, depth + 1):
-            for rest in itertools.product(range(len(ops)), repeat=d - 1):
-                reuse_history(kd, scheme, cfg, factory, ops, table, (first,) + rest, acc)
+        prefix = tuple(first) if isinstance(first, (tuple, list)) else (first,)
+        # a shard with a longer prefix also runs the proper prefixes it extends by call 0 only, so that over all shards every
+        # history of 1..depth calls is run exactly once
+        if len(prefix) > 1 and prefix[-1] == 0:
+            for cut in range(1, len(prefix)):
+                if all(x == 0 for x in prefix[cut:]):
+                    reuse_history(kd, scheme, cfg, factory, ops, table, prefix[:cut], acc)
+                    nh += 1
+        for d in range(len(prefix), depth + 1):
+            for rest in itertools.product(range(len(ops)), repeat=d - len(prefix)):
+                reuse_history(kd, scheme, cfg, factory, ops, table, prefix + rest, acc)
                 nh += 1
         acc.count("reuse_histories", nh)
         acc.seen("classes", ("reuse", kname, scheme, cfg_str(cfg) if cfg else "", first, depth))
@@ -1231,6 +1373,25 @@ def too_small_configs(k):
     return [[hn, None, None, False] for hn in ("sha1", "sha256", "sha384", "sha512") if k < 2 * R.hash_len(hn) + 2]
 
 
+_DEEP_MGF = {"sha224": "sha512", "sha512": "sha3_256", "sha3_256": "sha1", "sha512_256": "sha224", "sha3_224": "sha256",
+             "sha512_224": "sha3_512", "sha3_384": "md5", "sha3_512": "sha512_224"}
+
+
+def deep_configs(k, per_hash=3):
+    """thorough tier: configurations for the additional hashes (SHA-224, SHA-512, SHA-512/224, SHA-512/256, SHA3-*) that fit a
+    k-byte modulus: all defaults; MGF1 over another hash + one-byte label + hash handed over as an object; 64-byte label"""
+    out = []
+    for i, hn in enumerate(DEEP_HASHES):
+        if k < 2 * R.hash_len(hn) + 2:
+            continue
+        out.append([hn, None, None, hn in TRUNCATED])
+        if per_hash >= 2:
+            out.append([hn, _DEEP_MGF[hn], b"L", True])
+        if per_hash >= 3 and i < 4:
+            out.append([hn, None, asc(64, 0x41), hn in TRUNCATED or i % 2 == 0])
+    return out
+
+
 def split_range(n, parts):
     parts = max(1, min(parts, n))
     step = (n + parts - 1) // parts
@@ -1247,7 +1408,7 @@ def run(ctx):
         except Exception as ex:  # noqa
             a.error("reference self-test failed (%s): %r" % (name, ex))
             return
-    keys = build_keys(a)
+    keys = build_keys(a, deep=not q)
     if a.errors:
         return
     if not install_blinding_seam():
@@ -1259,12 +1420,19 @@ def run(ctx):
         a.error("harness cannot reach seam Crypto.Cipher._pkcs1_oaep_decode: %r" % ex)
         return
     phases = {}
+    phases_cpu = {}
 
     def timed(name, fn, shards):
+        import os
         t = time.time()
+        c0 = os.times()
         ctx.pmap(fn, shards)
-        phases[name] = round(time.time() - t, 1)
+        c1 = os.times()
+        phases[name] = round(phases.get(name, 0) + time.time() - t, 1)
+        phases_cpu[name] = round(phases_cpu.get(name, 0) + (c1.children_user + c1.children_system + c1.user + c1.system)
+                                 - (c0.children_user + c0.children_system + c0.user + c0.system), 1)
     ctx.coverage_extra["phase_wall_s"] = phases
+    ctx.coverage_extra["phase_cpu_s"] = phases_cpu
     grid = {}
 
     # ---- c-v15 -----------------------------------------------------------------
@@ -1288,21 +1456,84 @@ def run(ctx):
         "; len 16,17 x header 00 02 x all zero subsets x expected_pt_len 0..len-10 x sentinel len {0,1}" if q else
         "; len 19,20 x header 00 02 x all zero subsets x expected_pt_len 0..len-10 x sentinel len {0,1,len,len+1}") + \
         "; len 12,13 x fillers {01,80,FF}"
-    timed("c-v15", c_v15_worker, [[s] for s in sh])
+    shards = [[s] for s in sh]
+    if not q:
+        deep = []
+        # (a) two more lengths with every zero subset (header 00 02): 2^19 and 2^20 subsets
+        for L, slens in ((22, (0, 1, 22, 23)), (21, (0, 1, 21, 22))):
+            for lo, hi in split_range(1 << (L - 2), 1 << (L - 2 - 13)):
+                deep.append([(L, 0, 2, None, lo, hi, slens)])
+        # (b) EVERY sentinel length 0..len+1 (not only the four boundary ones), headers 00 02 and 00 01
+        for L in (15, 14, 13, 12):
+            for hdr in ((0, 2), (0, 1)):
+                deep.append([(L, hdr[0], hdr[1], None, 0, 1 << (L - 2), tuple(range(L + 2)))])
+        # (c) EVERY non-zero filler value 01..FF (len 12, all zero subsets)
+        fills = [f for f in range(1, 256) if f not in (0x01, 0x80, 0xFF)]
+        for fc in chunks(fills, 21):
+            deep.append([(12, 0, 2, f, 0, 1 << 10, (0, 1, 12, 13)) for f in fc])
+        shards = deep + shards
+        grid["c-v15"] += ("; len 21 x header 00 02 x all 2^19 zero subsets x expected_pt_len 0..11 x sentinel len {0,1,21,22}; len 22 x header "
+                          "00 02 x all 2^20 zero subsets x expected_pt_len 0..12 x sentinel len {0,1,22,23}; len 12..15 x headers {00 02, 00 01} x "
+                          "all zero subsets x expected_pt_len 0..len-10 x EVERY sentinel len 0..len+1; len 12 x all zero subsets x EVERY "
+                          "non-zero filler value 01..FF")
+    timed("c-v15", c_v15_worker, shards)
+    if not q:
+        sh = []
+        for L in (13, 12):
+            for lo, hi in split_range(256, 16):
+                sh.append([("hdr-all", L, lo, hi)])
+        for L in (40, 24, 16, 13, 12):
+            for lo, hi in split_range(L - 2, 8 if L >= 24 else 1):
+                sh.append([("byte-val", L, 2 + lo, 2 + hi)])
+        grid["c-v15"] += ("; len 12,13 x EVERY value 0000..FFFF of the first two octets x zero masks {none, each single position, all} x "
+                          "expected_pt_len 0..len-11; len 12,13,16,24,40 x EVERY value 00..FF at each single position 2..len-1 of a "
+                          "zero-free block, with and without a final zero octet, x expected_pt_len 0..len-11")
+        timed("c-v15", c_v15x_worker, sh)
+        ctx.require(len(a.distinct.get("c_v15x", ())) == 7, "c-v15 value dimensions (all headers / all byte values) did not run")
 
     # ---- c-long: encoded messages longer than 255 bytes, zero / separator at every position ---------
-    longL = (266, 267, 300, 512, 523) if q else (255, 256, 257, 266, 267, 268, 300, 511, 512, 513, 522, 523, 524, 768, 1034)
-    sh = [[("v15", L)] for L in longL]
-    for hn in ("sha1", "sha256"):
-        for r in ((255, 256, 257, 300, 512) if q else (254, 255, 256, 257, 258, 300, 511, 512, 513, 768, 1023, 1024, 1025)):
-            sh.append([("oaep", hn, r)])
-    grid["c-long"] = "v1.5 EM lengths %s and OAEP data-block tails of %s bytes: zero / 01 separator at every position and absent" % (
-        list(longL), "255..512" if q else "254..1025")
+    if q:
+        longL = (266, 267, 300, 512, 523)
+        sh = [[("v15", L)] for L in longL]
+        for hn in ("sha1", "sha256"):
+            for r in (255, 256, 257, 300, 512):
+                sh.append([("oaep", hn, r)])
+        grid["c-long"] = "v1.5 EM lengths %s and OAEP data-block tails of %s bytes: zero / 01 separator at every position and absent" % (
+            list(longL), "255..512")
+    else:
+        # EVERY encoded-message length 12..1040 (1040 bytes = 8320-bit modulus) and 2^11 / 2^12 neighbourhoods, the zero at EVERY position;
+        # around 2^16 (positions and lengths that need a third size_t octet) the zero in the first / last 160 positions
+        LONG_MAX, WIN = 1040, 160
+        longL = list(range(12, LONG_MAX + 1)) + [2047, 2048, 2049, 2058, 2059, 2060, 4095, 4096, 4097, 4107]
+        hugeL = (65535, 65536, 65537, 65546, 65547, 65548)
+        sh = [[("v15", L, WIN)] for L in hugeL] + [[("oaep", "sha1", r, WIN)] for r in (65535, 65536, 65537)]
+        items = [("v15", L) for L in longL]
+        c_hashes = ("sha1", "sha256", "md5", "sha224", "sha384", "sha512")
+        r_every = list(range(1, 601))
+        r_sel = [767, 768, 769, 1023, 1024, 1025, 2047, 2048, 2049]
+        for hn in c_hashes[:2]:
+            items += [("oaep", hn, r) for r in r_every + r_sel]
+        for hn in c_hashes[2:]:
+            items += [("oaep", hn, r) for r in (1, 2, 3, 254, 255, 256, 257, 258, 300, 511, 512, 513, 768, 1023, 1024, 1025)]
+        items.sort(key=lambda it: -(it[1] if it[0] == "v15" else 3 * it[2]))        # heaviest first, dealt round-robin
+        sh += chunks(items, 96)
+        grid["c-long"] = ("v1.5 EM of EVERY length 12..%d and %s: header 00 02, a single zero at EVERY position 2..len-1 and absent x "
+                          "expected_pt_len {0, |M|, and 255, 256 for lengths from 270}; lengths %s: zero in the first / last %d positions and absent x expected_pt_len "
+                          "{0, |M|, 255, 256, 65535, 65536}; OAEP data-block tails (after lHash) of EVERY length 1..600 and %s bytes for "
+                          "hLen 20 and 32, and of 1,2,3,254..258,300,511..513,768,1023..1025 bytes for hLen 16, 28, 48, 64: the 01 separator at "
+                          "EVERY position and absent; tails of 65535,65536,65537 bytes (hLen 20): separator in the first / last %d positions and absent"
+                          % (LONG_MAX, longL[LONG_MAX - 11:], list(hugeL), WIN, r_sel, WIN))
     timed("c-long", c_long_worker, sh)
 
     # ---- c-oaep ----------------------------------------------------------------
     sh = []
-    for hn in (("md5", "sha1") if q else ("md5", "sha1", "sha256")):
+    c_hashes = ("md5", "sha1") if q else ("md5", "sha1", "sha256", "sha224", "sha384", "sha512")
+    if not q:
+        # nine bytes after lHash, every string over {00,01,02,FF} (hLen 20)
+        for first in A4:
+            for second in A4:
+                sh.append([("short9", "sha1", 9, A4, (first, second), "few")])
+    for hn in c_hashes:
         sh.append([("short", hn, 1, (), tuple(range(256)), "full")])
         for lo in range(0, 256, 16):
             sh.append([("short", hn, 2, tuple(range(256)), tuple(range(lo, lo + 16)), "min" if q else "few")])
@@ -1317,7 +1548,10 @@ def run(ctx):
     grid["c-oaep"] = ("hash {md5,sha1%s} x DB-after-lHash: all 256 / 65536 strings of 1 / 2 bytes, all strings over {00,01,02,FF} "
                       "up to %d bytes and over {00,01,02,FF,80,7F} up to %d bytes, x (Y in {00,01,80,FF}, lHash damaged at each byte, "
                       "lHash of another label); long DBs %s: first non-zero at each position x {01,02,80,FF} x 3 tails"
-                      % ("" if q else ",sha256", 6 if q else 8, 4 if q else 5, "23" if q else "23,63,87"))
+                      % ("" if q else ",sha256,sha224,sha384,sha512 (hLen 16,20,32,28,48,64)", 6 if q else 8, 4 if q else 5,
+                         "23" if q else "23,63,87"))
+    if not q:
+        grid["c-oaep"] += "; sha1: all 4^9 strings of 9 bytes over {00,01,02,FF} x (Y in {00,01,80,FF}, lHash damaged at its first / middle / last byte, lHash of another label)"
     timed("c-oaep", c_oaep_worker, sh)
 
     # ---- v15 end to end ----------------------------------------------------------
@@ -1330,26 +1564,53 @@ def run(ctx):
             for lo, hi in split_range(1 << (k - 2), 8 if (q or hdr != (0, 2)) else 16):
                 sh.append([("subsets", kname, hdr, lo, hi, sents if (hdr == (0, 2) or not q) else ("S", "none"))])
     if not q:
-        k = keys["k16"]["k"]
-        for lo, hi in split_range(1 << (k - 2), 64):
-            sh.append([("subsets", "k16", (0, 2), lo, hi, ("S", "none"))])
+        # every zero subset end to end for the 13..16-byte moduli as well, complete sentinel alphabet (header 00 02);
+        # 13-byte modulus: also the 15 damaged headers
+        for kname, nsh in (("k16", 256), ("k15", 128), ("k14", 64), ("k13", 32)):
+            k = keys[kname]["k"]
+            for lo, hi in split_range(1 << (k - 2), nsh):
+                sh.append([("subsets", kname, (0, 2), lo, hi, sents)])
+        for hdr in itertools.product(hdr_vals, repeat=2):
+            if hdr != (0, 2):
+                for lo, hi in split_range(1 << 11, 2):
+                    sh.append([("subsets", "k13", hdr, lo, hi, ("S", "none"))])
     pos_keys = ("k12", "k34", "k35", "k64", "k128", "k129") if q else ("k12", "k16", "k34", "k35", "k48", "k64", "k128", "k128e3", "k129")
-    for kname in pos_keys:
+    deep_pos = () if q else ("k512", "k384", "k300", "k256", "k256e3", "k130", "k129b", "k129c", "k98", "k67", "k66", "k58", "k43", "k42",
+                             "k15", "k14", "k13")
+    psh = []
+    for kname in deep_pos + pos_keys:
         k = keys[kname]["k"]
         big = k > 64
+        huge = k >= 512               # 4096 bits: sentinels {S, k+1 bytes, None}
         pats = MSGPATS[:1] if (q and big) else MSGPATS
         zs_all = list(range(2, k + 1))
-        for zc in chunks(zs_all, 16 if big else 6):
-            sh.append([("pos", kname, tuple(zc), ((0, 2),), pats, sents if not (q and big) else ("S", "k+1", "none"))])
+        for zc in chunks(zs_all, (128 if k >= 384 else 64 if k >= 200 else 16) if big else 6):
+            psh.append([("pos", kname, tuple(zc), ((0, 2),), pats, sents if not ((q and big) or huge) else ("S", "k+1", "none"))])
         bz = sorted({2, 9, 10, 11, k - 1, k})
         for hdr in HEADERS[1:]:
-            sh.append([("pos", kname, tuple(bz), (hdr,), pats[:2], sents if not big else ("S", "k+1", "none"))])
+            psh.append([("pos", kname, tuple(bz), (hdr,), pats[:2], sents if not big else ("S", "k+1", "none"))])
+        if not q:
+            # the ciphertext handed over in a bytearray / memoryview (documented types), boundary positions of the zero
+            bz2 = sorted({2, 9, 10, 11, 12, k - 257, k - 256, k - 2, k - 1, k} & set(zs_all))
+            for ctt in ("bytearray", "memoryview"):
+                psh.append([("pos", kname, tuple(bz2), ((0, 2), (0, 1)), pats[:1], ("S", "k", "none"), (ctt,))])
+    sh = (psh + sh) if not q else (sh + psh)
     grid["v15"] = ("keys k11,k12%s: header %s x all zero subsets x expected_pt_len 0..k-10,k+5 x sentinels; keys %s: first zero at "
                    "every index 2..k-1 or absent x message patterns %s x expected_pt_len {0,1,|M|-1,|M|,|M|+1,k-11,k-10,k+5} x "
                    "sentinels %s; 8 damaged headers x first zero {2,9,10,11,k-1,none}"
-                   % ("" if q else ",k16", "{00,01,02,FF}^2 (k12; sentinels {S,None} for damaged headers in quick)", ",".join(pos_keys),
+                   % ("" if q else ",k13,k14,k15,k16 (k13: all 16 headers; k14..k16: header 00 02, complete sentinel alphabet)",
+                      "{00,01,02,FF}^2 (k12; sentinels {S,None} for damaged headers in quick)", ",".join(pos_keys + deep_pos),
                       "/".join(MSGPATS), "/".join(SENTINELS)))
+    if not q:
+        grid["v15"] += ("; every key: ciphertext given as bytearray and as memoryview x headers {00 02, 00 01} x first zero "
+                        "{2,9,10,11,12,k-257,k-256,k-2,k-1,none} x sentinels {S, k bytes, None}; reduced for k512 (4096 bits): "
+                        "sentinels {S, k+1 bytes, None}; damaged headers on keys above 64 bytes: sentinels {S, k+1 bytes, None}")
     timed("v15", v15_worker, sh)
+    if not q:
+        ctx.require({c[1] for c in a.distinct.get("classes", ()) if c[0] == "v15" and c[2] == "pos"} >= {keys[x]["k"] for x in deep_pos},
+                    "v15 end to end: not every added key size reached the decoder")
+        ctx.require({c[2] for c in a.distinct.get("classes", ()) if c[0] == "v15"} >= {"pos", "subsets", "pos/bytearray", "pos/memoryview"},
+                    "v15 end to end: ciphertext container types not exercised")
 
     # ---- oaep end to end -----------------------------------------------------------
     sh = []
@@ -1373,20 +1634,60 @@ def run(ctx):
     longs = [("k64", sha1), ("k128", sha256), ("k129", d)] if q else \
         [("k64", sha1), ("k64", ["md5", "sha256", b"L", False]), ("k128", sha1), ("k128", sha256),
          ("k128e3", ["sha1", "sha256", asc(64, 0x41), True]), ("k129", d), ("k129", sha256), ("k128", ["sha384", None, None, False])]
-    for kname, cfg in longs:
-        np_ = 4 if keys[kname]["k"] <= 64 else 16
+    deep_sh = []
+    deep_long = []
+    if not q:
+        H = lambda hn: [hn, None, None, hn in TRUNCATED]
+        # the smallest modulus for each hash length (one DB byte after lHash: all 256 values) ...
+        min_keys = (("k42", "sha1"), ("k58", "sha224"), ("k58", "sha3_224"), ("k58", "sha512_224"), ("k66", "sha256"), ("k66", "sha3_256"),
+                    ("k66", "sha512_256"), ("k98", "sha384"), ("k98", "sha3_384"), ("k130", "sha512"), ("k130", "sha3_512"))
+        for kname, hn in min_keys:
+            for lo in range(0, 256, 64):
+                deep_sh.append([("short", kname, H(hn), (), tuple(range(lo, lo + 64)), V(hn))])
+        # ... k43/sha1: all 65536 two-byte strings
+        deep_sh += [[("short", "k67", sha256, tuple(range(256)), tuple(range(lo, lo + 4)), V("sha256", "few")[:6])] for lo in range(0, 256, 4)]
+        deep_sh += [[("short", "k43", sha1, tuple(range(256)), tuple(range(lo, lo + 4)), V("sha1", "few")[:6])] for lo in range(0, 256, 4)]
+        # k66/sha224: nine bytes, first over {00,01,02,FF}, the others over {00,01,02}; one shard per (first byte, variant)
+        for f in A4:
+            for v in V("sha224", "few")[:7]:
+                deep_sh.append([("short", "k66", H("sha224"), A4[:3], (f,), (v,))])
+        longs += [("k512", sha256), ("k512", H("sha512")), ("k512", sha1), ("k384", sha1), ("k384", sha256), ("k384", H("sha512_256")), ("k300", md5), ("k300", sha1), ("k300", H("sha3_256")), ("k300", ["sha512", "sha1", b"L", True]),
+                  ("k256", sha1), ("k256", sha256), ("k256", H("sha512")), ("k256", H("sha3_512")), ("k256", ["sha224", "sha512", b"L", True]),
+                  ("k256e3", ["sha384", None, None, False]), ("k256e3", H("sha512_256")),
+                  ("k130", H("sha3_384")), ("k130", md5), ("k129b", H("sha224")), ("k129b", sha1), ("k129c", H("sha512_224")),
+                  ("k129c", sha256), ("k128", H("sha3_224")), ("k98", sha1), ("k98", ["md5", "sha512", asc(64, 0x41), True]), ("k66", md5)]
+    for li, (kname, cfg) in enumerate(longs):
+        np_ = 4 if keys[kname]["k"] <= 64 else (16 if keys[kname]["k"] < 200 else 48)
         for p in range(np_):
-            sh.append([("long", kname, cfg, V(cfg_ref(cfg)[0]), p, np_)])
-    for kname in (("k64", "k128") if q else ("k48", "k64", "k128", "k129")):
+            (deep_long if (not q and li >= 8) else sh).append([("long", kname, cfg, V(cfg_ref(cfg)[0]), p, np_)])
+    cross_cfgs = {}
+    for kname in (("k64", "k128") if q else ("k48", "k64", "k128", "k129", "k130", "k256", "k300")):
         cfgs = oaep_configs(kname, keys[kname]["k"], q)
+        if kname in ("k128", "k130", "k256", "k300") and not q:
+            cfgs = cfgs + deep_configs(keys[kname]["k"], 2)
+        cross_cfgs[kname] = len(cfgs)
         for c in cfgs:
             sh.append([("cross", kname, c, [o for o in cfgs if o != c] + too_small_configs(keys[kname]["k"]))])
+    deep_long.sort(key=lambda x: -keys[x[0][1]]["k"])           # heaviest first
+    sh = deep_long + deep_sh + sh
     grid["oaep"] = ("k34/md5: all 256 values of the single DB byte after lHash; k35/md5: %s two-byte strings; k48/sha1: all strings over "
                     "%s (7 bytes); long DBs %s: first non-zero at each position x {01,02,80,FF} x 3 tails, none; each x (Y in {00,01,80,FF}, "
                     "lHash damaged at each byte); cross-configuration (label/MGF/hash of sender != receiver) for %s"
                     % ("64" if q else "all 65536", "{00,01,02}" if q else "{00,01,02,FF}", ",".join("%s/%s" % (k_, cfg_ref(c)[0]) for k_, c in longs),
-                       "k64,k128" if q else "k48,k64,k128,k129"))
+                       "k64,k128" if q else "k48,k64,k129 (md5/sha1/sha256/sha384 configurations), k128,k130,k256,k300 (also two configurations "
+                       "for each of %s); configurations per key %s" % ("/".join(DEEP_HASHES), cross_cfgs)))
+    if not q:
+        grid["oaep"] += ("; smallest modulus for each hash (k = 2hLen+2: %s): all 256 values of the single DB byte after lHash x (Y in "
+                         "{00,01,80,FF}, lHash damaged at each byte); k43/sha1 and k67/sha256: all 65536 two-byte strings; k66/sha224 (9 bytes): first byte over "
+                         "{00,01,02,FF}, the others over {00,01,02}" % ",".join("%s/%s" % x for x in min_keys))
     timed("oaep", oaep_worker, sh)
+    if not q:
+        hs = {c[2] for c in a.distinct.get("classes", ()) if c[0] == "oaep"}
+        ctx.require(hs >= set(DEEP_HASHES) | {"md5", "sha1", "sha256", "sha384"}, "oaep end to end: hashes reached: %s" % sorted(hs))
+        for hn in DEEP_HASHES:
+            ctx.require(any(c[0] == "oaep" and c[2] == hn and c[6] == "plaintext" for c in a.distinct["classes"]) and
+                        any(c[0] == "oaep" and c[2] == hn and c[6] == "ValueError" for c in a.distinct["classes"]),
+                        "oaep end to end with %s: accept and reject expected" % hn)
 
     # ---- round trips ------------------------------------------------------------------
     sh = []
@@ -1405,22 +1706,62 @@ def run(ctx):
                 sh.append([("oaep", kname, cfg, lc, 2 if q else 6)])
         for cfg in too_small_configs(k):
             sh.append([("oaep", kname, cfg, [0, 1, k], 1)])
+    deep_sh = []
+    deep_rt = []
+    nconf_base = nconf
+    if not q:
+        # (key, configurations, message values per length)
+        for kname in ("k42", "k43", "k58", "k66", "k98", "k130"):
+            deep_rt.append((kname, oaep_configs(kname, keys[kname]["k"], False) + deep_configs(keys[kname]["k"]), 6))
+        deep_rt.append(("k128", deep_configs(128), 6))
+        deep_rt.append(("k129b", deep_configs(129, 1) + [[None, None, None, False]], 2))
+        deep_rt.append(("k129c", oaep_configs("k129c", 129, True), 2))
+        deep_rt.append(("k256", oaep_configs("k256", 256, False) + deep_configs(256), 6))
+        deep_rt.append(("k256e3", deep_configs(256, 1), 1))
+        deep_rt.append(("k300", [["md5", None, None, False], [None, None, None, False], ["sha256", None, b"L", True],
+                                 ["sha512", "sha1", None, False], ["sha3_256", None, None, False]], 2))
+        deep_rt.append(("k384", [[None, None, None, False], ["sha256", None, None, False], ["sha512", "sha256", b"L", True]], 2))
+        deep_rt.append(("k512", [["sha256", None, None, False], ["sha384", "sha1", b"L", True]], 2))
+        for kname, cfgs, nvals in deep_rt:
+            k = keys[kname]["k"]
+            for cfg in cfgs:
+                nconf += 1
+                mx = k - 2 * R.hash_len(cfg_ref(cfg)[0]) - 2
+                lengths = list(range(0, mx + 1)) + [mx + 1, mx + 2, k, k + 1, 2 * k]
+                for lc in chunks(lengths, 1 if k <= 64 else (4 if k < 200 else 12)):
+                    deep_sh.append([("oaep", kname, cfg, lc, nvals)])
     v15_keys = ("k11", "k12", "k34", "k35", "k64", "k129") if q else ("k11", "k12", "k16", "k34", "k35", "k48", "k64", "k128", "k128e3", "k129")
-    for kname in v15_keys:
+    deep_v15 = () if q else ("k512", "k384", "k300", "k256", "k256e3", "k130", "k129b", "k129c", "k98", "k67", "k66", "k58", "k43", "k42",
+                             "k15", "k14", "k13")
+    for kname in deep_v15 + v15_keys:
         k = keys[kname]["k"]
         mx = k - 11
         lengths = list(range(0, mx + 1)) + [mx + 1, mx + 2, k, k + 1, 2 * k]
         tapes = ("seeded", "zeros-first", "zeros-everywhere", "asc")
-        for lc in chunks(lengths, 1 if k <= 64 else 6):
-            sh.append([("v15", kname, lc, 2 if q else 6, tapes)])
+        for lc in chunks(lengths, 1 if k <= 64 else (6 if k < 200 else 32)):
+            (deep_sh if kname in deep_v15 else sh).append([("v15", kname, lc, (2 if q else 6) if k < 200 else 3, tapes)])
+    deep_sh.sort(key=lambda x: -keys[x[0][1]]["k"])             # heaviest first
+    sh = deep_sh + sh
     # every value of the padding octet (constant tapes), smallest OAEP-capable key
     for lo in range(1, 256, 32):
         sh.append([("v15", "k34", [0, 1, keys["k34"]["k"] - 11], 1, tuple(range(lo, min(lo + 32, 256))))])
     grid["rt"] = ("OAEP: keys %s x %d (hash, MGF, label, hash-object?) configurations x every message length 0..max and "
                   "max+1, max+2, k, k+1, 2k x %d message values; v1.5: keys %s x every length 0..k-11 (+ over-long) x message "
                   "values x 4 tapes (zeros interspersed); constant tapes 01..FF on k34; bytes/bytearray/memoryview at 0, max, max+1"
-                  % (",".join(rt_keys), nconf, 2 if q else 6, ",".join(v15_keys)))
+                  % (",".join(rt_keys + (("k128e3",) if not q else ())), nconf_base, 2 if q else 6, ",".join(v15_keys + deep_v15)))
+    if not q:
+        grid["rt"] += ("; OAEP also: %s (key: configurations x message values per length; hashes md5/sha1/sha256/sha384 and %s, "
+                       "truncated SHA-512 handed over as a hash object, MGF1 over a different hash, labels of 0/1/64 bytes); v1.5 keys of "
+                       "200 bytes and more: 3 message values per length"
+                       % (", ".join("%s: %d x %d" % (kn, len(cf), nv) for kn, cf, nv in deep_rt), "/".join(DEEP_HASHES)))
     timed("rt", rt_worker, sh)
+    if not q:
+        rl = a.distinct.get("rt_lengths", set())
+        ctx.require({x[2] for x in rl if x[0] == "oaep"} >= set(DEEP_HASHES), "round trips: not every added hash was run")
+        ctx.require(max([x[3] for x in rl if x[0] == "oaep" and x[1] == 300] or [0]) >= 2 * 300 and
+                    {255, 256, 257} <= {x[3] for x in rl if x[0] == "v15" and x[1] == 300} and
+                    {255, 256, 257} <= {x[3] for x in rl if x[0] == "oaep" and x[1] == 300 and x[2] == "sha1"},
+                    "round trips: message lengths 255..257 with the 300-byte modulus did not run")
 
     # ---- ciphertext length / range -------------------------------------------------------
     sh = []
@@ -1428,9 +1769,14 @@ def run(ctx):
         k = keys[kname]["k"]
         cfgs = [c for c in ([None, None, None, False], ["md5", None, None, False], ["sha256", "sha1", b"L", True])
                 if k >= 2 * R.hash_len(cfg_ref(c)[0]) + 2] + too_small_configs(k)[:2]
+        if not q:
+            cfgs += deep_configs(k, 1) + [c for c in too_small_configs(k)[2:]]
         sh.append([(kname, cfgs)])
     grid["ct"] = ("all %d keys x {v1.5, OAEP configurations incl. hashes too large for the key} x ciphertext lengths {0,1,k-1,k+1,2k} "
                   "and integers {n-2,n-1,n,n+1,n+c,2^(8k)-1,2^(8k-8),0,1,2}" % len(keys))
+    if not q:
+        grid["ct"] += "; OAEP configurations: defaults, md5, sha256/MGF1-sha1/label, every one of %s that fits the key, every hash too large for it" % (
+            "/".join(DEEP_HASHES))
     timed("ct", ct_worker, sh)
 
     # ---- one cipher object reused ------------------------------------------------------------
@@ -1446,6 +1792,28 @@ def run(ctx):
     grid["reuse"] = ("one PKCS1_v1_5 / PKCS1_OAEP object per (key, configuration): every history of up to %d calls from {decrypt of 4 valid, "
                      "1 undecodable, 1 wrong-length, 1 out-of-range ciphertext; v1.5 also with expected_pt_len; encrypt of 3 messages and one "
                      "too long}; each outcome equals a fresh object's" % rdepth)
+    if not q:
+        deep = []
+        # (a) histories one call longer on the small keys; (b) more keys / hash objects at depth 3 and 4
+        for kname, sis, depth in (("k48", (1,), 5), ("k16", (0,), 5), ("k98", range(len(REUSE_ALL)), 4), ("k130", range(len(REUSE_ALL)), 3),
+                                  ("k256", range(len(REUSE_ALL)), 3), ("k300", range(len(REUSE_ALL)), 3), ("k384", (0, 1, 2), 3),
+                                  ("k128", range(len(REUSE_SCHEMES), len(REUSE_ALL)), 4)):
+            for si in sis:
+                scheme, cfg = REUSE_ALL[si]
+                if scheme.startswith("oaep") and keys[kname]["k"] < 2 * R.hash_len(cfg_ref(cfg)[0]) + 2 + 4:
+                    continue
+                nops = len(_reuse_setup(keys[kname], scheme, cfg)[1])
+                if depth == 5:           # one shard per first two calls
+                    for first in range(nops):
+                        for second in range(nops):
+                            deep.append([(kname, si, depth, (first, second))])
+                else:
+                    for first in range(nops):
+                        deep.append([(kname, si, depth, first)])
+        sh = deep + sh
+        grid["reuse"] += ("; also: every history of up to 5 calls for k48 (OAEP defaults) and k16 (v1.5); up to 4 calls for k98 "
+                          "(all configurations that fit) and k128 with the hash-object configurations %s; up to 3 calls for k130, k256, k300 "
+                          "(all configurations) and k384 (v1.5, OAEP defaults, OAEP sha256/MGF1-sha1/label)" % "; ".join(cfg_str(c) for _, c in REUSE_DEEP))
     timed("reuse", reuse_worker, sh)
     ctx.require(a.n.get("reuse_histories", 0) > 1000 and len(a.distinct.get("reuse_objects", ())) >= 6, "cipher-object reuse histories did not run")
 
@@ -1493,9 +1861,19 @@ def run(ctx):
     })
     ctx.assume("data values: non-zero filler bytes, messages, seeds and labels come from the small value alphabet (fixed patterns + "
                "SHAKE256(VERIF_SEED)); what is enumerated completely is the *structure* of the encoded message")
-    ctx.assume("zero-position subsets are complete for encoded messages of 11..18 bytes (C decoder) and for the 11/12/16-byte moduli end "
-               "to end; for larger moduli the first-zero position is complete and later zeros follow three patterns")
-    ctx.assume("key sizes: 88..512-bit keys found by deterministic search plus the 1024/1025-bit fixtures; 2048-bit and larger keys are not run")
+    if q:
+        ctx.assume("zero-position subsets are complete for encoded messages of 11..18 bytes (C decoder) and for the 11/12/16-byte moduli end "
+                   "to end; for larger moduli the first-zero position is complete and later zeros follow three patterns")
+        ctx.assume("key sizes: 88..512-bit keys found by deterministic search plus the 1024/1025-bit fixtures; 2048-bit and larger keys are not run")
+    else:
+        ctx.assume("zero-position subsets are complete for encoded messages of 11..22 bytes (C decoder; 19..22 bytes with header 00 02 only) and "
+                   "for the 11..16-byte moduli end to end; for larger moduli the first-zero position is complete and later zeros follow three "
+                   "patterns; encoded messages around 2^16 bytes: the zero / separator only in the first and last 160 positions")
+        ctx.assume("key sizes: 88..1040-bit, 2400-, 3072- and 4096-bit keys found by deterministic search plus the 1024/1025/1031/1032/"
+                   "2048-bit fixtures (4096 bits with a reduced sentinel alphabet, 2048 bits and more with fewer message values per length in "
+                   "the v1.5 round trips); larger keys are not run")
+        ctx.assume("OAEP hashes: MD5, SHA-1, SHA-224/256/384/512, SHA-512/224, SHA-512/256, SHA3-224/256/384/512 (Crypto.Hash modules, or hash "
+                   "objects made by them); MD2/MD4/RIPEMD-160/BLAKE2 are not run")
     ctx.assume("the RSA blinding factor is drawn from a deterministic stream (seam Crypto.Math._IntegerBase.Random); the decoded block "
                "does not depend on it")
     ctx.assume("custom mgfunc callables other than MGF1 over a Crypto.Hash module, and hashAlgo objects outside Crypto.Hash, are not covered")
@@ -1510,7 +1888,7 @@ def replay(case, acc):
     if kd is not None:
         kd = dict(kd)
     if part == "v15":
-        v15_case(kd, case["em"], case["sent"], case["epl"], acc)
+        v15_case(kd, case["em"], case["sent"], case["epl"], acc, cttype=case.get("cttype", "bytes"))
     elif part == "oaep":
         oaep_case(kd, case["cfg"], case["em"], acc)
     elif part == "c-v15":
